@@ -523,6 +523,136 @@ theorem C05_threeSew3_cells (cfg : Cfg X) (m m' : Map X) (ld rd : Nat) (u : Unit
     unfold IsVid3; rw [hL.n]
     exact isMinOf_union hG ha hb
 
+/-! ## 3-unsew: the partitions read backwards, the face split -/
+
+/-- **C05, 3-unsew at cell level** (mirrored map, closed left face).  `rd = β3 ld`; `m1` is the map
+    after `three_unlink`: `m` is `m1` with exactly the pairs `(β1^t ld, β0^t rd)`, `t < L`, 3-linked
+    (re-linking what was unlinked gives back β), so the OLD face / edge / vertex partitions are the
+    new ones with the stated pairs united; the zipped face walks of the code (computed on `m1`)
+    list exactly these pairs; the two face identifiers split INTO are the smallest darts of the two
+    new faces and the identifier split FROM, `min` of the two, is the smallest dart of the old
+    face.  (The edge / vertex identifiers inside the chain `UnsewnPairs` are computed by
+    `edge_id_transac` / `vertex_id_transac` on maps with the topology of `m1`, hence cell minima of
+    `m1` by `C05_edgeId3_is_cell_min` / `C05_vertexId3_is_cell_min`.) -/
+theorem C05_threeUnsew3_cells (cfg : Cfg X) (m m' : Map X) (ld : Nat) (u : Unit)
+    (hwf : WF 4 m) (hM : Mirror m) (hl : C02.InUse m ld) (hfc : m.fc = 0)
+    (hclosed : ∀ t, it m 1 t ld ≠ 0)
+    (h : run (threeUnsew3 cfg m.n ld) m = (.ok u, m')) :
+    ∃ m1 L lo ro mf,
+      run (threeUnlink3 (X := X) m.n ld) m = (.ok (), m1) ∧ WF 4 m1 ∧ SameTopo m1 m' ∧ m.β 3 ld ≠ 0 ∧
+      Linked3 m1 m (walkPairs m 1 0 L ld (m.β 3 ld)) ∧
+      run (faceOrbits3 m.n ld (m.β 3 ld)) m1 = (.ok (lo, ro), m1) ∧
+      (∀ pq, pq ∈ lo.zip ro ↔ pq ∈ walkPairs m 1 0 L ld (m.β 3 ld)) ∧
+      (∀ d e, SameCell (g3f m) m.n d e ↔ Glue (SameCell (g3f m1) m.n) [(ld, m.β 3 ld)] d e) ∧
+      (∀ d e, SameCell (g3e m) m.n d e ↔
+        Glue (SameCell (g3e m1) m.n) (walkPairs m 1 0 L ld (m.β 3 ld)) d e) ∧
+      (∀ d e, SameCell (g3v m) m.n d e ↔
+        Glue (SameCell (g3v m1) m.n) (pairsA m (walkPairs m 1 0 L ld (m.β 3 ld))) d e) ∧
+      IsFid3 m1 ld (listMin lo ld) ∧ IsFid3 m1 (m.β 3 ld) (listMin ro (m.β 3 ld)) ∧
+      IsFid3 m ld (min (listMin lo ld) (listMin ro (m.β 3 ld))) ∧
+      SplitIn cfg (fStores cfg) (listMin lo ld) (listMin ro (m.β 3 ld))
+        (min (listMin lo ld) (listMin ro (m.β 3 ld))) m1 mf ∧
+      UnsewnPairs cfg m.n (lo.zip ro) mf m' := by
+  obtain ⟨hl0, hln, hlu⟩ := hl
+  obtain ⟨m1, lo, ro, mf, hunl, hfo, hF, hU, htopo⟩ := C05_threeUnsew3_effect cfg m.n ld m m' u hfc h
+  obtain ⟨L, hne, hL, cl, cr, hminl, hminr, hw1⟩ := threeUnlink3_unlinked_closed hwf hM hln hclosed hunl
+  have hrn : m.β 3 ld < m.n := hwf.range 3 (by omega) ld hln
+  have d10 : Dir 1 0 := Or.inl ⟨rfl, rfl⟩
+  have d01 : Dir 0 1 := Or.inr ⟨rfl, rfl⟩
+  have hn1 : m1.n = m.n := hL.n.symm
+  have e1 : ∀ x, m1.β 1 x = m.β 1 x := fun x => (hL.other 1 x (by omega)).symm
+  have e0 : ∀ x, m1.β 0 x = m.β 0 x := fun x => (hL.other 0 x (by omega)).symm
+  have i1 : ∀ t x, it m1 1 t x = it m 1 t x := it_congr e1
+  have i0 : ∀ t x, it m1 0 t x = it m 0 t x := it_congr e0
+  have wp : walkPairs m1 1 0 L ld (m.β 3 ld) = walkPairs m 1 0 L ld (m.β 3 ld) := walkPairs_congr e1 e0 _ _ _
+  have hL' : Linked3 m1 m (walkPairs m1 1 0 L ld (m.β 3 ld)) := by rw [wp]; exact hL
+  have cl1 : Cyc m1 1 ld L := ⟨cl.pos, by rw [i1]; exact cl.per, fun t => by rw [i1]; exact cl.nz t⟩
+  have cr1 : Cyc m1 0 (m.β 3 ld) L := ⟨cr.pos, by rw [i0]; exact cr.per, fun t => by rw [i0]; exact cr.nz t⟩
+  have fl := cyc_free cl1 hL'
+  have fr := cyc_free_r cr1 hL'
+  have hln1 : ld < m1.n := by rw [hn1]; exact hln
+  have hrn1 : m.β 3 ld < m1.n := by rw [hn1]; exact hrn
+  -- the two face walks of the code, on `m1`
+  have hfo' := hfo
+  unfold faceOrbits3 at hfo
+  obtain ⟨lo', h1, hfo⟩ := run_ro_bind_ok (readOnly_bfs _ (readOnly_gen3_custom _) _ _ _ _) hfo
+  obtain ⟨ro', h2, hfo⟩ := run_ro_bind_ok (readOnly_bfs _ (readOnly_gen3_custom _) _ _ _ _) hfo
+  obtain ⟨hp, _⟩ := run_pure_ok hfo
+  simp only [Prod.mk.injEq] at hp
+  obtain ⟨rfl, rfl⟩ := hp
+  have o1 := (face_orbit_cycle (X := X) hw1 d10 hl0 hln1 cl1).1
+  have o2 := (face_orbit_cycle (X := X) hw1 d01 hne hrn1 cr1).1
+  rw [hn1] at o1 o2
+  have eq1 : lo = bfsPure (gIJ m1 1 0) (m.n + 1) [ld] [0, ld] [] := by
+    have : run (orbitWith m.n (gen3 (X := X) (.custom [1, 0])) ld) m1 = (.ok lo, m1) := h1
+    rw [o1] at this; simp at this; exact this.symm
+  have eq2 : ro = bfsPure (gIJ m1 0 1) (m.n + 1) [m.β 3 ld] [0, m.β 3 ld] [] := by
+    have : run (orbitWith m.n (gen3 (X := X) (.custom [0, 1])) (m.β 3 ld)) m1 = (.ok ro, m1) := h2
+    rw [o2] at this; simp at this; exact this.symm
+  have hzip : ∀ pq, pq ∈ lo.zip ro ↔ pq ∈ walkPairs m 1 0 L ld (m.β 3 ld) := by
+    intro pq
+    rw [eq1, eq2, ← wp, ← hn1]
+    exact zip_face_walks hw1 hl0 hne hln1 hrn1 cl1 cr1 (fun t h0 ht => by rw [i1]; exact hminl t h0 ht)
+      (fun t h0 ht => by rw [i0]; exact hminr t h0 ht) pq
+  have s_l : IsFid3 m1 ld (listMin lo ld) := by
+    rw [eq1, ← hn1]; exact face_min_cycle hw1 d10 hl0 hln1 cl1 fl
+  have s_r : IsFid3 m1 (m.β 3 ld) (listMin ro (m.β 3 ld)) := by
+    rw [eq2, ← hn1]; exact face_min_cycle hw1 d01 hne hrn1 cr1 fr
+  -- the partitions, read backwards
+  have eqF := sameCell_equiv (g3f m1) m.n
+  have hfaces : ∀ d e, SameCell (g3f m) m.n d e ↔ Glue (SameCell (g3f m1) m.n) [(ld, m.β 3 ld)] d e := by
+    intro d e
+    have := cells_linked3 (base := fun m x => [m.β 1 x, m.β 0 x]) (m := m1) (m' := m)
+      (fun x => by simp only [e1, e0]) hL d e
+    rw [show gB3 (fun m x => [m.β 1 x, m.β 0 x]) m = g3f m from rfl,
+      show gB3 (fun m x => [m.β 1 x, m.β 0 x]) m1 = g3f m1 from rfl, hn1] at this
+    rw [this]
+    refine glue_same_cells eqF (fun pq hm => ?_)
+      ⟨(ld, m.β 3 ld), (mem_walkPairs L ld _ _).2 ⟨0, cl.pos, rfl⟩⟩ d e
+    obtain ⟨t, _, rfl⟩ := (mem_walkPairs L ld _ pq).1 hm
+    have a := (face_cell_cycle hw1 d10 hln1 cl1 fl (it m 1 t ld)).2 ⟨t, (i1 t ld).symm⟩
+    have b := (face_cell_cycle hw1 d01 hrn1 cr1 fr (it m 0 t (m.β 3 ld))).2 ⟨t, (i0 t _).symm⟩
+    rw [hn1] at a b
+    exact ⟨.symm a, .symm b⟩
+  have hedges : ∀ d e, SameCell (g3e m) m.n d e ↔
+      Glue (SameCell (g3e m1) m.n) (walkPairs m 1 0 L ld (m.β 3 ld)) d e := by
+    intro d e
+    have := cells_linked3 (base := fun m x => [m.β 2 x]) (m := m1) (m' := m)
+      (fun x => by simp only [(hL.other 2 x (by omega)).symm]) hL d e
+    rw [hn1] at this
+    exact this
+  have hps : ∀ lr, lr ∈ walkPairs m 1 0 L ld (m.β 3 ld) → m1.β 1 lr.1 ≠ 0 ∧ m1.β 1 lr.2 ≠ 0 := by
+    intro lr hm
+    obtain ⟨t, ht, rfl⟩ := (mem_walkPairs L ld _ lr).1 hm
+    constructor
+    · show m1.β 1 (it m 1 t ld) ≠ 0
+      rw [e1, ← it_succ']; exact cl.nz _
+    · show m1.β 1 (it m 0 t (m.β 3 ld)) ≠ 0
+      rw [e1, cr.pred hwf d01 hrn t]; exact cr.nz _
+  have hverts : ∀ d e, SameCell (g3v m) m.n d e ↔
+      Glue (SameCell (g3v m1) m.n) (pairsA m (walkPairs m 1 0 L ld (m.β 3 ld))) d e := by
+    intro d e
+    have := vertex_cells_linked3 hw1 hwf hL hps d e
+    rw [hn1] at this
+    rw [this]
+    have pa : ∀ ps, pairsA m1 ps = pairsA m ps := by
+      intro ps; unfold pairsA; simp only [e1]
+    have hcl := fun x => pairsV3_closed hw1 hln1 hrn1 cl1 cr1 x
+    rw [wp, pa] at hcl
+    constructor
+    · exact Glue.mono fun x hx => (hcl x).1 hx
+    · exact Glue.mono fun x hx => (hcl x).2 hx
+  -- the old face identifier
+  have hG : ∀ e, SameCell (g3f m) m.n ld e ↔ (SameCell (g3f m1) m.n ld e ∨ SameCell (g3f m1) m.n (m.β 3 ld) e) := by
+    intro e; rw [hfaces]
+    exact glue_sep_pair eqF (ps := [(ld, m.β 3 ld)]) (by simp) (pq := (ld, m.β 3 ld)) (by simp) e
+  have s_old : IsFid3 m ld (min (listMin lo ld) (listMin ro (m.β 3 ld))) := by
+    have a := s_l; have b := s_r
+    unfold IsFid3 at a b ⊢
+    rw [hn1] at a b
+    exact isMinOf_union hG a b
+  exact ⟨m1, L, lo, ro, mf, hunl, hw1, htopo, hne, hL, hfo', hzip, hfaces, hedges, hverts, s_l, s_r, s_old, hF, hU⟩
+
 /-! ## non-vacuity -/
 
 open HC.C02 (exMap exCfg)
@@ -549,6 +679,12 @@ example := C05_threeSew3_cells exCfg exMap (run (threeSew3 exCfg 16 1 4) exMap).
   (by decide +kernel) (by decide +kernel) (by decide +kernel) (by decide) rfl
   (C02.periodic_never_null (L := 3) (by decide +kernel) (by decide) (by decide +kernel) (by decide))
   (Prod.ext (by decide +kernel : (run (threeSew3 exCfg 16 1 4) exMap).1 = .ok ()) rfl)
+/-- the two triangles 3-sewn, then 3-unsewn at dart 2 -/
+def exSewn3 : Map Val := (run (threeSew3 exCfg 16 1 4) exMap).2
+example := C05_threeUnsew3_cells exCfg exSewn3 (run (threeUnsew3 exCfg exSewn3.n 2) exSewn3).2 2 ()
+  (by decide +kernel) (by decide +kernel) (by decide +kernel) (by decide +kernel)
+  (C02.periodic_never_null (L := 3) (by decide +kernel) (by decide) (by decide +kernel) (by decide))
+  (Prod.ext (by decide +kernel : (run (threeUnsew3 exCfg exSewn3.n 2) exSewn3).1 = .ok ()) rfl)
 example : IsEid3 exSewn2 7 7 :=
   C05_edgeId3_is_cell_min (m' := exSewn2) (n' := 16) (by decide +kernel) (by decide) (by decide +kernel)
     (Prod.ext (by decide +kernel : (run (edgeId3 16 7) exSewn2).1 = .ok 7) (readOnly_edgeId3 16 7 exSewn2))
